@@ -205,16 +205,10 @@ private theorem vec_meta (V : NcVars) (name : String) (n : Nat) (o : Option (Lis
   | none => simp [metaCol, hd]
   | some l => simp only [Option.map_some, metaCol]; exact cleanArr_numVec l (hok l rfl).2
 
-/-- the altitude column as the NetCDF reader delivers it: NaN when the variable is absent -/
-def ncElevCol (T : DenseTable) : List XR :=
-  match T.elevs with
-  | some l => l.map XR.fin
-  | none => List.replicate T.nloc .nan
-
 private theorem locs_nc (L : NcLayout) (T : DenseTable) (hwf : T.WF) :
     ncLocations (toNcVars L T) =
       .ok (zipLocs (metaCol T.nloc T.ids fun i => (i : Rat)) (metaCol T.nloc T.lats fun _ => 0)
-            (metaCol T.nloc T.lons fun _ => 0) (ncElevCol T)) := by
+            (metaCol T.nloc T.lons fun _ => 0) (metaCol T.nloc T.elevs fun _ => 0)) := by
   unfold ncLocations
   have hd : (toNcVars L T).dim? "location" = some T.nloc := by
     simp [NcVars.dim?, toNcVars, List.lookup_cons]
@@ -229,21 +223,14 @@ private theorem locs_nc (L : NcLayout) (T : DenseTable) (hwf : T.WF) :
   have hid := vec_meta (toNcVars L T) "location" T.nloc T.ids (fun i => (i : Rat))
     ((List.range T.nloc).map fun (i : Nat) => XR.fin (i : Rat)) (var_loc L T hwf) hwf.ids_ok rfl
   rw [hid]
-  have helev : (toNcVars L T).vec "altitude" ((metaCol T.nloc T.lats fun _ => 0).map fun _ => XR.nan)
-      = ncElevCol T := by
-    unfold NcVars.vec ncElevCol
-    rw [var_alt L T hwf]
-    cases he : T.elevs with
-    | none => simp [hlen]
-    | some l => simp only [Option.map_some]; exact cleanArr_numVec l (hwf.elevs_ok l he).2
+  have helev := vec_meta (toNcVars L T) "altitude" T.nloc T.elevs (fun _ => 0)
+    ((metaCol T.nloc T.lats fun _ => 0).map fun _ => XR.fin 0) (var_alt L T hwf) hwf.elevs_ok
+    (by rw [List.map_const', hlen]; simp)
   rw [helev]
   apply mkLocs_eq
   · rw [hlen]; exact metaCol_length _ _ _ fun l h => (hwf.ids_ok l h).1
   · rw [hlen]; exact metaCol_length _ _ _ fun l h => (hwf.lons_ok l h).1
-  · rw [hlen]; unfold ncElevCol
-    cases he : T.elevs with
-    | none => simp
-    | some l => simp [(hwf.elevs_ok l he).1]
+  · rw [hlen]; exact metaCol_length _ _ _ fun l h => (hwf.elevs_ok l h).1
 
 /-! ### other fields -/
 
@@ -370,14 +357,14 @@ private theorem dataset_ext (A B : Dataset) (h1 : A.times = B.times) (h2 : A.lea
   cases va; cases vb
   simp_all
 
-/-- The dataset the NetCDF reader yields for the file that carries table `T` in the documented layout,
-whatever encodings the writer chose for the missing cells: it is `datasetOf T` in every attribute
-except possibly the elevation column (`ncElevCol`: NaN instead of 0 when `altitude` is absent). -/
-theorem C10_same_dataset_general (L : NcLayout) (T : DenseTable) (hwf : T.WF) :
-    (ncAssemble (toNcVars L T)).map NcInput.dataset =
-      .ok { datasetOf T with
-            locs := zipLocs (metaCol T.nloc T.ids fun i => (i : Rat)) (metaCol T.nloc T.lats fun _ => 0)
-                      (metaCol T.nloc T.lons fun _ => 0) (ncElevCol T) } := by
+/-- C10, main statement: a NetCDF file in the documented layout denotes the same dataset as the table it
+was written from, whatever encodings the writer chose for the missing cells — same dimensions, location
+metadata (absent ids 0,1,2,…; absent lat / lon / altitude 0), thresholds / quantiles, every field cell by
+cell (each encoding of a missing cell reads NaN, every other number unchanged), other fields and variable
+metadata; every optional part present or absent.  (`datasetOf T` is also what the text reader must yield
+for a text file carrying `T`: C09.) -/
+theorem C10_same_dataset (L : NcLayout) (T : DenseTable) (hwf : T.WF) :
+    (ncAssemble (toNcVars L T)).map NcInput.dataset = .ok (datasetOf T) := by
   have htime := var_time L T hwf
   have hlead := var_lead L T hwf
   have hlocs := locs_nc L T hwf
@@ -441,49 +428,17 @@ theorem C10_same_dataset_general (L : NcLayout) (T : DenseTable) (hwf : T.WF) :
   · exact hx0
   · exact hx1
 
-/-
-  FULL STATEMENT (does not hold — known finding `nc-elev-default`):
-
-    theorem C10_same_dataset (L : NcLayout) (T : DenseTable) (hwf : T.WF) :
-        (ncAssemble (toNcVars L T)).map NcInput.dataset = .ok (datasetOf T)
-
-  It fails exactly on the elevation column when the table has no altitude: the text reader (and the
-  format description: "default values if columns not available") gives 0, `Netcdf._get_locations` gives
-  NaN (input.py:229-230) although it defaults lat and lon to 0 (input.py:218-219).
-  `C10_elev_default_differs` is the witness; the `_partial` theorem carries the hypothesis the defect
-  forces (`altitude` present).
--/
-
-/-- C10, main statement: a NetCDF file in the documented layout denotes the same dataset as the table it
-was written from — same dimensions, location metadata, thresholds / quantiles, every field cell by cell
-(each encoding of a missing cell reads NaN, every other number unchanged), other fields and variable
-metadata; every optional part present or absent.  (`datasetOf T` is also what the text reader must yield
-for a text file carrying `T`: C09.) -/
-theorem C10_same_dataset_partial (L : NcLayout) (T : DenseTable) (hwf : T.WF) (he : T.elevs.isSome) :
-    (ncAssemble (toNcVars L T)).map NcInput.dataset = .ok (datasetOf T) := by
-  rw [C10_same_dataset_general L T hwf]
-  congr 2
-  cases h : T.elevs with
-  | none => rw [h] at he; cases he
-  | some l => simp [datasetOf, ncElevCol, metaCol, h]
-
 private def T0 : DenseTable :=
   { times := [0], leads := [0], nloc := 1, obs := some ⟨[1, 1, 1], [some 1]⟩ }
 
 private theorem T0_wf : T0.WF := by
   constructor <;> simp [T0, okNum, CArr.ok, reservedNames] <;> norm_num
 
-/-- the witness of the known finding: one location, no altitude — the NetCDF reader yields elevation NaN,
-the table denotes elevation 0 -/
-theorem C10_elev_default_differs :
-    ∃ (L : NcLayout) (T : DenseTable), T.WF ∧
-      (ncAssemble (toNcVars L T)).map NcInput.dataset ≠ .ok (datasetOf T) := by
-  refine ⟨⟨fun _ _ => .masked, true⟩, T0, T0_wf, ?_⟩
-  rw [C10_same_dataset_general _ T0 T0_wf]
-  intro h
-  injection h with h
-  have := congrArg Dataset.locs h
-  simp [datasetOf, T0, zipLocs, metaCol, ncElevCol, List.range, List.range.loop] at this
+/-- one location, no lat / lon / altitude variable (the input that used to read elevation NaN): the NetCDF
+reader yields the location (0, 0, 0, 0), as the table denotes -/
+example : (ncAssemble (toNcVars ⟨fun _ _ => .masked, true⟩ T0)).map NcInput.dataset = .ok (datasetOf T0) ∧
+    (datasetOf T0).locs = [⟨.fin 0, .fin 0, .fin 0, .fin 0⟩] :=
+  ⟨C10_same_dataset _ T0 T0_wf, by decide +kernel⟩
 
 /-! ### every field is `clean` of the stored cell -/
 
@@ -529,7 +484,7 @@ theorem C10_clean_assemble (V : NcVars) (I : NcInput) (h : ncAssemble V = .ok I)
 /-! ### optional variables -/
 
 /-- absent optional variables: the field is not available (`None`), thresholds / quantiles are empty,
-location ids are 0,1,2,…, lat and lon read 0 and the elevation reads NaN -/
+location ids are 0,1,2,…, lat, lon and the elevation read 0 -/
 theorem C10_optional_absent (V : NcVars) (I : NcInput) (h : ncAssemble V = .ok I) :
     (V.var? "obs" = none → I.obs = none) ∧ (V.var? "fcst" = none → I.fcst = none) ∧
     (V.var? "pit" = none → I.pit = none) ∧ (V.var? "ensemble" = none → I.ensemble = none) ∧
@@ -537,12 +492,12 @@ theorem C10_optional_absent (V : NcVars) (I : NcInput) (h : ncAssemble V = .ok I
     (V.var? "threshold" = none → I.thresholds = []) ∧ (V.var? "quantile" = none → I.quantiles = []) ∧
     (∀ n, V.dim? "location" = some n → V.var? "location" = none → V.var? "lat" = none →
       V.var? "lon" = none → V.var? "altitude" = none →
-      I.locs = (List.range n).map fun (i : Nat) => (⟨.fin (i : Rat), .fin 0, .fin 0, .nan⟩ : Loc)) := by
+      I.locs = (List.range n).map fun (i : Nat) => (⟨.fin (i : Rat), .fin 0, .fin 0, .fin 0⟩ : Loc)) := by
   obtain ⟨t, l, ht, hl, hlocs, hI⟩ := assemble_ok V I h
   refine ⟨?_, ?_, ?_, ?_, ?_, ?_, ?_, ?_, ?_⟩
   all_goals try (intro hv; rw [hI]; simp [hv, NcVars.vec])
   intro n hd h1 h2 h3 h4
-  have : ncLocations V = .ok ((List.range n).map fun (i : Nat) => (⟨.fin (i : Rat), .fin 0, .fin 0, .nan⟩ : Loc)) := by
+  have : ncLocations V = .ok ((List.range n).map fun (i : Nat) => (⟨.fin (i : Rat), .fin 0, .fin 0, .fin 0⟩ : Loc)) := by
     unfold ncLocations
     simp only [hd, NcVars.vec, h1, h2, h3, h4, List.length_replicate]
     rw [mkLocs_eq _ _ _ _ (by simp) (by simp) (by simp)]
@@ -550,8 +505,8 @@ theorem C10_optional_absent (V : NcVars) (I : NcInput) (h : ncAssemble V = .ok I
     clear hlocs hI hd
     have key : ∀ (m : Nat) (f : Nat → Rat), zipLocs ((List.range' m n).map fun i => XR.fin (f i))
         (List.replicate n (.fin 0)) (List.replicate n (.fin 0))
-        ((List.replicate n (XR.fin 0)).map fun _ => XR.nan) =
-        (List.range' m n).map fun i => (⟨.fin (f i), .fin 0, .fin 0, .nan⟩ : Loc) := by
+        ((List.replicate n (XR.fin 0)).map fun _ => XR.fin 0) =
+        (List.range' m n).map fun i => (⟨.fin (f i), .fin 0, .fin 0, .fin 0⟩ : Loc) := by
       induction n with
       | zero => intro m f; rfl
       | succ k ih =>
@@ -657,8 +612,8 @@ private theorem zipLocs_map (l : List Loc) :
 
 /-- what `text2nc.py` can convert without loss: every number is float32-representable (int32 for the
 location ids; times are stored as doubles) and not a missing-value code, observations and forecasts are
-present, probabilities / quantile values come with their thresholds / levels, other fields have proper
-names, and the units are in display form (`%` or `$…$`). -/
+present, probabilities / quantile values come with their thresholds / levels, an ensemble has at least one
+member, other fields have proper names, and the units are in display form (`%` or `$…$`). -/
 structure Convertible (R : Rounding) (D : Dataset) : Prop where
   times : ∀ v ∈ D.times, Keeps id v
   leads : ∀ v ∈ D.leads, Keeps R.r32 v
@@ -668,6 +623,8 @@ structure Convertible (R : Rounding) (D : Dataset) : Prop where
   obs : ∃ a, D.obs = some a ∧ ∀ v ∈ a.data, Keeps R.r32 v
   fcst : ∃ a, D.fcst = some a ∧ ∀ v ∈ a.data, Keeps R.r32 v
   pit : ∀ a, D.pit = some a → ∀ v ∈ a.data, Keeps R.r32 v
+  /-- an input without members has `ensemble = none` (the view `NcInput.dataset` / the harness take) -/
+  ens : ∀ a, D.ensemble = some a → a.dims.getLastD 0 ≠ 0 ∧ ∀ v ∈ a.data, Keeps R.r32 v
   cdf : if D.thresholds = [] then D.cdf = none else ∃ a, D.cdf = some a ∧ ∀ v ∈ a.data, Keeps R.r32 v
   x : if D.quantiles = [] then D.x = none else ∃ a, D.x = some a ∧ ∀ v ∈ a.data, Keeps R.r32 v
   others : ∀ p ∈ D.others, p.1 ∉ reservedNames ∧ ∀ v ∈ p.2.data, Keeps R.r32 v
@@ -717,7 +674,8 @@ private theorem t_obs : (text2nc R D).var? "obs" = some (storeArr R.r32
 private theorem t_fcst : (text2nc R D).var? "fcst" = some (storeArr R.r32
     (D.fcst.getD (nanArr [D.times.length, D.leads.length, D.locs.length]))) := by t2n_tac "fcst"
 private theorem t_pit : (text2nc R D).var? "pit" = D.pit.map (storeArr R.r32) := by t2n_tac "pit"
-private theorem t_ens : (text2nc R D).var? "ensemble" = none := by t2n_tac "ensemble"
+private theorem t_ens : (text2nc R D).var? "ensemble" =
+    (D.ensemble.filter fun a => a.dims.getLastD 0 != 0).map (storeArr R.r32) := by t2n_tac "ensemble"
 private theorem t_thr : (text2nc R D).var? "threshold" =
     if D.thresholds.isEmpty then none else some (storeVec R.r32 D.thresholds) := by
   by_cases h : D.thresholds.isEmpty <;> t2n_tac "threshold" <;> simp_all
@@ -773,6 +731,7 @@ private theorem t_others : ((text2nc R D).vars.map (·.1)).filterMap (oth (text2
           fun _ => storeVec R.r32 D.quantiles)).map (·.1)
       ++ (optVar "x" ((if D.quantiles.isEmpty then none else some D.quantiles.length).map fun k =>
           storeArr R.r32 (D.x.getD (nanArr ([D.times.length, D.leads.length, D.locs.length] ++ [k]))))).map (·.1)
+      ++ (optVar "ensemble" ((D.ensemble.filter fun a => a.dims.getLastD 0 != 0).map (storeArr R.r32))).map (·.1)
       ++ ["time", "leadtime", "location", "lat", "lon", "altitude", "fcst", "obs"]
       ++ (optVar "pit" (D.pit.map (storeArr R.r32))).map (·.1))
     D.others (fun _ a => storeArr R.r32 a) id
@@ -780,7 +739,7 @@ private theorem t_others : ((text2nc R D).vars.map (·.1)).filterMap (oth (text2
     (by
       intro n hn
       simp only [List.mem_cons, List.mem_append, List.not_mem_nil, or_false, or_assoc] at hn
-      rcases hn with h | h | h | h | h | h | h | h | h | h | h | h | h
+      rcases hn with h | h | h | h | h | h | h | h | h | h | h | h | h | h
       all_goals first
         | (subst h; decide)
         | (have := mem_optVar _ _ _ h; subst this; decide))
@@ -794,13 +753,11 @@ end t2n
 
 /-- C10, conversion: for every rounding `R` (float32 for the `f4` variables, int32 for the ids) and every
 dataset `D` whose numbers `R` leaves alone — float32-representable data — reading the file `text2nc.py`
-writes for `D` gives `D` back EXACTLY in every attribute the script writes: times, lead times, location
-ids and metadata, thresholds + probabilities, quantile levels + values, obs, fcst, pit, other fields,
-variable name and units.  Omitted by the script (and therefore absent after the round trip): the ensemble
-members and the discrete masses x0 / x1. -/
+writes for `D` gives `D` back EXACTLY, in every attribute: times, lead times, location ids and metadata,
+thresholds + probabilities, quantile levels + values, obs, fcst, pit, ensemble members, other fields,
+variable name, units and the discrete masses x0 / x1. -/
 theorem C10_text2nc (R : Rounding) (D : Dataset) (hc : Convertible R D) :
-    (ncAssemble (text2nc R D)).map NcInput.dataset =
-      .ok { D with ensemble := none, var := { D.var with x0 := none, x1 := none } } := by
+    (ncAssemble (text2nc R D)).map NcInput.dataset = .ok D := by
   have htime := t_time R D hc
   have hlead := t_lead R D hc
   have hlocs := t_locs R D hc
@@ -815,8 +772,8 @@ theorem C10_text2nc (R : Rounding) (D : Dataset) (hc : Convertible R D) :
   have hoth := t_others R D hc
   have hname : ncVarName (text2nc R D) = D.var.name := rfl
   have hunits : (text2nc R D).units = some (stripDollar D.var.units) := rfl
-  have hx0 : (text2nc R D).x0 = none := rfl
-  have hx1 : (text2nc R D).x1 = none := rfl
+  have hx0 : (text2nc R D).x0 = D.var.x0 := rfl
+  have hx1 : (text2nc R D).x1 = D.var.x1 := rfl
   generalize text2nc R D = V at *
   rw [assemble_eq V _ _ _ htime hlead hlocs]
   show Except.ok (NcInput.dataset _) = Except.ok _
@@ -852,8 +809,14 @@ theorem C10_text2nc (R : Rounding) (D : Dataset) (hc : Convertible R D) :
     cases h : D.pit with
     | none => rfl
     | some a => simp [clean_storeArr _ a (hc.pit a h)]
-  · show (V.var? "ensemble").map cleanArr = none
-    rw [hens]; rfl
+  · show (V.var? "ensemble").map cleanArr = D.ensemble
+    rw [hens]
+    cases h : D.ensemble with
+    | none => rfl
+    | some a =>
+      obtain ⟨hd, hk⟩ := hc.ens a h
+      simp [Option.filter, clean_storeArr _ a hk]
+      simpa using hd
   · show (V.var? "cdf").map cleanArr = D.cdf
     rw [hcdf]
     have := hc.cdf
@@ -905,9 +868,9 @@ private theorem T1_wf : T1.WF := by
   constructor <;> simp [T1, okNum, CArr.ok, reservedNames] <;> norm_num
 
 example : (ncAssemble (toNcVars L1 T1)).map NcInput.dataset = .ok (datasetOf T1) :=
-  C10_same_dataset_partial L1 T1 T1_wf rfl
+  C10_same_dataset L1 T1 T1_wf
 
-/-- a dataset as the text reader delivers it (with ensemble members and x0, which the script drops) -/
+/-- a dataset as the text reader delivers it, with ensemble members and x0 (which the script used to drop) -/
 private def D1 : Dataset :=
   { times := [.fin 1325376000], leads := [.fin 0, .fin 6],
     locs := [⟨.fin 3, .fin 60, .fin 10.75, .fin 94⟩],
@@ -924,9 +887,9 @@ private theorem D1_conv : Convertible ⟨id, id⟩ D1 := by
   case units => exact Or.inr ⟨['K'], by decide⟩
   all_goals (simp [D1, Keeps, okNum, reservedNames] <;> norm_num)
 
-example : (ncAssemble (text2nc ⟨id, id⟩ D1)).map NcInput.dataset =
-    .ok { D1 with ensemble := none, var := { D1.var with x0 := none, x1 := none } } :=
-  C10_text2nc ⟨id, id⟩ D1 D1_conv
+example : (ncAssemble (text2nc ⟨id, id⟩ D1)).map NcInput.dataset = .ok D1 ∧
+    D1.ensemble.isSome ∧ D1.var.x0 = some (.fin 0) :=
+  ⟨C10_text2nc ⟨id, id⟩ D1 D1_conv, rfl, rfl⟩
 
 example : detect true true true false = .ok .netcdf ∧ detect false true true true = .ok .text :=
   ⟨(C10_detect true true false).1, (C10_detect true true true).2.2.2.1⟩
